@@ -509,6 +509,32 @@ def run (ctx, repo, mods, type_parser_classes, fallback_classes=()):
       ctx.ob('R-AGREE', po_, "every collected TCP option is an option object", good, "append guarded by a test of the decoded option" if guarded else "no decoder returns None as the option" if good else
              "%s can return `%s` and parse_options appends whatever it gets: a segment reported as parsed then holds None among its options, and tcp.hdr() (`opt.pack()`) raises AttributeError when the parse result is re-serialised"
              % (nones[0][0].qual, norm(nones[0][1].value)), (tm_, c_), 'D4')
+  # ---- E18 state of one parse result is its own: a mutable default argument stored into the instance is one object shared by every
+  # instance built without that argument - the decoders build their results exactly that way (`cls()` then unpack/append) -----------
+  n_md = 0
+  for m_ in mods.values():
+    for c_ in m_.classes.values():
+      for f_ in c_.methods.values():
+        a_ = f_.node.args
+        defaults = dict(zip([x.arg for x in a_.args][len(a_.args) - len(a_.defaults):], a_.defaults))
+        for pn_, dv_ in defaults.items():
+          if not (isinstance(dv_, (ast.List, ast.Dict, ast.Set)) or (isinstance(dv_, ast.Call) and isinstance(dv_.func, ast.Name) and dv_.func.id in ('list', 'dict', 'set', 'bytearray'))): continue
+          n_md += 1
+          g_ = q.cfg_of(f_)
+          for t_, v_, st_, k_ in q.stores_in(f_.node, nested=False):
+            if not (isinstance(t_, ast.Attribute) and norm(t_.value) == 'self' and isinstance(v_, ast.Name) and v_.id == pn_ and k_ == 'assign'): continue
+            # the parameter still holds what the caller passed (or the default) when it is stored: no rebinding on the way
+            sn_ = q.enclosing_stmt_node(g_, st_)
+            rebound = [q.enclosing_stmt_node(g_, s2_) for t2_, v2_, s2_, k2_ in q.stores_in(f_.node, nested=False) if isinstance(t2_, ast.Name) and t2_.id == pn_]
+            if rebound and all(r_ is not None and g_.dominates(r_, sn_) for r_ in rebound): continue
+            muts = [(f2_, k2_) for f2_ in c_.methods.values() for k2_, s2_ in q.mutations_of_attr(f2_.node, t_.attr) if k2_.startswith('call:') or k2_ in ('setitem', 'delitem', 'augassign')]
+            sub_muts = [(f2_, k2_) for (rel_, cn_, bases_, meths_) in repo.class_index if c_.name in bases_ for c2_ in [mm_.classes.get(cn_) for mm_ in mods.values() if mm_.classes.get(cn_) is not None][:1]
+                        for f2_ in c2_.methods.values() for k2_, s2_ in q.mutations_of_attr(f2_.node, t_.attr) if k2_.startswith('call:') or k2_ in ('setitem', 'delitem', 'augassign')]
+            allm = muts + sub_muts
+            ctx.ob('R-OWN', f_, "a mutable default argument is not kept as instance state (`%s`)" % norm(st_), not allm, "never changed in place" if not allm else
+                   "`%s` stores the parameter `%s`, whose default `%s` is created once: every %s built without that argument shares one object, and %s changes it in place (%s) - what one frame's decoder collects stays in every later "
+                   "instance; the accumulated state grows with each frame until re-serialising a parse result raises" % (norm(st_), pn_, norm(dv_), c_.name, allm[0][0].qual, allm[0][1]), (m_, st_), 'D4')
+  ctx.stat('mutable default arguments examined', n_md)
   ctx.stat('own __str__ methods examined', n_str); ctx.stat('tuple-arity sites', n_arity); ctx.stat('self-nesting dispatch sites', n_rec); ctx.stat('TLV value slices compared', n_tlv)
 
 def tlv_value_slices (ctx, classes, clause):
